@@ -89,6 +89,11 @@ def check_level(sc, o, steps, parent, outs_list, prefix, fails):
                 else:
                     bad(f"step outcome class is not the one forced on its Logic ({want_cls} expected)",
                         f"reported {got_cls}, expected {want_cls}", s)
+            elif want_cls == "Ok" and not same(outs[l].get("value"), truth[l][1]):
+                # value integrity: at the end of the pass the step's reported value is still what its Logic returned
+                bad("step's reported value is not what its Logic returned (changed during the pass, or results "
+                    "assembled in the wrong order)",
+                    f"reported {outs[l].get('value')!r}, its Logic returned {truth[l][1]!r}", s)
         not_ok = [r for r in refs if r not in outs or outs[r]["cls"] != "Ok" or truth.get(r, ("Ok",))[0] != "Ok"]
         if not not_ok and any(r in truth and truth[r][0] == "Ok" and outs[r]["cls"] != "Ok" for r in refs):
             continue          # a referenced step is mis-reported (flagged there); nothing sound to demand here
@@ -107,7 +112,11 @@ def check_level(sc, o, steps, parent, outs_list, prefix, fails):
                 bad("step with a non-Ok dependency is not reported as DepSkip",
                     f"references {not_ok} but outcome is {outs[l]['cls']}", s)
             continue
-        env = {"steps": {r: outs[r].get("value") for r in refs}, "parent": parent}
+        # "exactly those steps' return values": what a referenced step RETURNED is taken from the reference run
+        # (every function of the library returns a known function of its inputs), not from what is reported at
+        # the end of the pass — an aliased / mutated value would otherwise be its own witness
+        env = {"steps": {r: (truth[r][1] if truth.get(r, ("?",))[0] == "Ok" else outs[r].get("value")) for r in refs},
+               "parent": parent}
         try:
             base = m.py_eval(["M", s["inputs"]], env) if s.get("inputs") else {}
         except m.EvalError:
@@ -229,6 +238,10 @@ def oracle(sc, o):
     if sc.get("edit"):
         return fails
     check_level(sc, o, sc["steps"], sc["trigger"], o["outcomes"], [], fails)
+    sim = m.simulate(sc)
+    if not sim.get("not_ready") and not same(o["top"]["state"], sim["state"]):
+        fails.append(("published state is not what the steps' Logic returned", 
+                      f"state {o['top']['state']!r}, expected {sim['state']!r}", None))
     for c in o["calls"]:
         if not c["path"]:
             fails.append(("API call outside any step", f"{(c['method'], c['name'])}", None))
@@ -281,16 +294,114 @@ def grid_scenarios():
         yield sc
 
 
+def special_scenarios():
+    """families aimed at hidden state / special combinations"""
+    C = m.C
+    base = {"name": "wf-main", "trigger": {"spec": {"y": 1}}, "subs": {}, "existing": [], "edit": None, "broken": None}
+    src_inputs = [["cls", C("ok")], ["lol", C([[1, 2], [3], ["x", "y"]])], ["mp", C({"a": 1, "b": {"c": 2}})],
+                  ["txt", C("Ab-Cd")], ["n", C(5)]]
+    # (1) value integrity: an earlier-listed dependent applies a koreo CEL helper to (part of) the source's value;
+    #     later-listed dependents, the source's own reported value and its published state must be untouched
+    helpers = {
+        "flatten": ["F", ["S", "src", ["got", "lol"]]],
+        "flatten-discarded": ["U", "flatten", [["S", "src", ["got", "lol"]]], C(1)],
+        "overlay": ["U", "overlay", [["S", "src", ["got", "mp"]], C({"b": {"zz": 1}, "a": 9})], C(1)],
+        "to_json": ["U", "to_json", [["S", "src", ["got"]]], C(1)],
+        "lower": ["U", "lower", [["S", "src", ["got", "txt"]]], C(1)],
+        "split": ["U", "split", [["S", "src", ["got", "txt"]], C("-")], C(1)],
+    }
+    for hname, hexpr in helpers.items():
+        for cls in ("ok", "retry7"):
+            sc = copy.deepcopy(base)
+            sc["steps"] = [
+                {"label": "src", "inputs": [[k, (C(cls) if k == "cls" else e)] for k, e in src_inputs], "logic": ["fn", "bycls"],
+                 "state": [["src", ["V", []]]]},
+                {"label": "user", "inputs": [["h", copy.deepcopy(hexpr)]], "logic": ["fn", "echo"]},
+                {"label": "later", "inputs": [["all", ["S", "src", ["got"]]], ["lol", ["S", "src", ["got", "lol"]]]],
+                 "logic": ["fn", "echo"], "state": [["later", ["V", ["got"]]]]},
+                {"label": "last", "inputs": [["first", ["S", "src", ["got", "lol"]]], ["u", ["S", "user", []]]],
+                 "foreach": [["S", "src", ["got", "lol"]], "item"], "logic": ["fn", "echo"]}]
+            sc["cell"] = f"integrity helper={hname} src={cls}"
+            yield sc
+    # (2) references that sit ONLY inside a macro body / index / literal / call argument / behind has()
+    for form in ("mac", "idx", "fld", "fl", "macf", "has"):
+        for cls in m.CLS_WORDS:
+            for site in ("inputs", "skip", "foreach"):
+                def dress(e):
+                    return ["H", e[1], e[2], C("dflt")] if form == "has" else ["W", form, e]
+                sc = copy.deepcopy(base)
+                dep = {"label": "dep", "inputs": [["k", C(1)]], "logic": ["fn", "echo"]}
+                if site == "inputs":
+                    dep["inputs"].append(["v", dress(["S", "src", ["got", "n"]])])
+                elif site == "skip":
+                    dep["skip"] = dress(["S", "src", ["got", "f"]])
+                else:
+                    dep["foreach"] = [dress(["S", "src", ["got", "lol"]]), "item"]
+                sc["steps"] = [{"label": "src", "inputs": [[k, (C(cls) if k == "cls" else e)] for k, e in src_inputs] + [["f", C(False)]],
+                                "logic": ["fn", "bycls"]}, dep,
+                               {"label": "tail", "inputs": [["d", ["S", "dep", []]]], "logic": ["fn", "echo"]}]
+                sc["cell"] = f"hidden-ref form={form} site={site} src={cls}"
+                yield sc
+    # (2b) composite Logic that does not finish Ok: a sub-workflow whose inner steps are all skipped / waiting /
+    #      failed, a forEach with one non-Ok item — each with a dependent
+    for inner in (["skip"], ["skip", "skip"], ["depskip"], ["retry7"], ["ok", "permfail"], ["skip", "ok"], ["ok"]):
+        sc = copy.deepcopy(base)
+        sc["subs"] = {"sub-c": {"steps": [{"label": f"in{i:02d}", "inputs": [["cls", C(w)], ["p", ["P", []]]], "logic": ["fn", "bycls"],
+                                            "state": [[f"s{i}", ["V", ["got", "cls"]]]]} for i, w in enumerate(inner)]
+                                + [{"label": "inzz", "inputs": [["a", ["S", "in00", []]]], "logic": ["fn", "echo"]}]}}
+        sc["steps"] = [{"label": "child", "inputs": [["k", C(1)]], "logic": ["sub", "sub-c"]},
+                       {"label": "after", "inputs": [["c", ["S", "child", []]]], "logic": ["fn", "echo"]}]
+        sc["cell"] = f"composite sub inner={'+'.join(inner)}"
+        yield sc
+    for items in (["ok", "retry7", "ok"], ["ok", "ok", "retry30"], ["skip", "depskip"], ["ok", "permfail"], ["retry7", "permfail"]):
+        sc = copy.deepcopy(base)
+        sc["steps"] = [{"label": "fan", "inputs": [["w", C(1)]], "foreach": [C(items), "cls"], "logic": ["fn", "bycls"]},
+                       {"label": "after", "inputs": [["c", ["S", "fan", []]]], "logic": ["fn", "echo"]}]
+        sc["cell"] = f"composite forEach items={'+'.join(items)}"
+        yield sc
+    # (3) refSwitch x forEach with switchOn on the item; (4) forEach with more than 10 items
+    for n in (3, 12):
+        for variant in ("sel", "kind"):
+            sels = [["one", "two", "three", "zzz"][i % 4] for i in range(n)]
+            sc = copy.deepcopy(base)
+            sc["steps"] = [{"label": "fan", "inputs": [["cls", C("ok")], ["w", C("x")]],
+                            "foreach": [C(sels if variant == "sel" else [{"kind": c, "n": i} for i, c in enumerate(sels)]),
+                                        "sel" if variant == "sel" else "item"],
+                            "logic": ["switch", ["I", ["sel"] if variant == "sel" else ["item", "kind"]],
+                                      [["one", ["fn", "echo"], False], ["two", ["fn", "bycls"], False], ["three", ["fn", "null"], True]]],
+                            "state": [["fan", ["V", []]]]},
+                           {"label": "tail", "inputs": [["d", ["S", "fan", []]]], "logic": ["fn", "echo"]}]
+            sc["cell"] = f"switch-per-item n={n} {variant}"
+            yield sc
+    for n in (11, 13, 15):
+        for logic, key, items in ((["fn", "echo"], "item", [f"it{i}" for i in range(n)]),
+                                  (["fn", "res"], "name", [f"obj-many-{i}" for i in range(n)])):
+            for existing in ([], items[::2]) if key == "name" else ([],):
+                sc = copy.deepcopy(base)
+                sc["existing"] = list(existing) + (items if key == "name" and existing else [])
+                sc["steps"] = [{"label": "many", "inputs": [["w", C(1)]], "foreach": [C(items), key], "logic": logic,
+                                "state": [["many", ["V", []]]]},
+                               {"label": "tail", "inputs": [["d", ["S", "many", []]]], "logic": ["fn", "echo"]}]
+                sc["cell"] = f"forEach n={n} {logic[1]}"
+                yield sc
+
+
 def scenarios(ctx: Ctx):
     for c in corpus_cases("C01"):
         yield c
+    special = list(special_scenarios())
+    if ctx.quick():
+        ctx.rng.shuffle(special)
+        special = sorted(special[:80], key=lambda x: x["cell"])
+    for sc in special:
+        yield sc
     grid = list(grid_scenarios())
     if ctx.quick():
         ctx.rng.shuffle(grid)
         grid = grid[:120]
     for sc in grid:
         yield sc
-    for _ in range(220 if ctx.quick() else 4000):
+    for _ in range(200 if ctx.quick() else 4000):
         yield m.rand_scenario(ctx.rng)
 
 
@@ -362,7 +473,8 @@ def run(ctx: Ctx):
         n_edges = sum(len(m.step_refs(s)) for s in sc["steps"])
         ctx.note_case({"steps": sc["steps"], "subs": sc.get("subs"), "existing": sc.get("existing"), "trigger": sc["trigger"]},
                       nontrivial=len(sc["steps"]) >= 2 and n_edges >= 1 and len(o["trace"]) >= 1)
-        ctx.count("kind:" + ("grid" if "cell" in sc else "random"))
+        ctx.count("kind:" + (sc["cell"].split(" ")[0] if "cell" in sc and not sc["cell"].startswith("dep=") else
+                             ("grid" if "cell" in sc else "random")))
         ctx.count(f"steps:{min(len(sc['steps']), 20)}")
         ctx.count("result:" + o["top"]["result"]["cls"])
         ctx.count("broken:" + str(sc.get("broken")))
